@@ -342,6 +342,10 @@ pub fn run(ctx: &Ctx) -> Outcome {
     );
     hook::install();
     install_panic_capture();
+    if ctx.args.str("part", "all") == "concurrent" {
+        run_concurrent(ctx, &mut out);
+        return out;
+    }
     if ctx.shard == 0 {
         for mode in [IDENTITY, UNIFORM] {
             for fwd in [1u64, 3, 6, 10, 14] {
@@ -393,10 +397,16 @@ pub fn run(ctx: &Ctx) -> Outcome {
     }
     let maps = ctx.q(160u64, 40_000);
     let mut st = SeqStats::default();
-    let mut exhaustive = true;
+    let exhaustive = true;
     'outer: for mi in 0..maps {
         if mi % ctx.shards != ctx.shard {
             continue;
+        }
+        // the budget bounds the number of prepared maps; every map that is started gets ALL its
+        // injection points (a map costs well under a second)
+        if !ctx.time_left() {
+            out.add("prepared_maps_not_started_for_lack_of_time", 1);
+            break 'outer;
         }
         let mut rng0 = Rng::derive(ctx.seed, 0xC18, mi);
         let mode = *rng0.pick(&[UNIFORM, CONSTANT, SAMEBIN, MIXED, CONSTANT]);
@@ -416,11 +426,6 @@ pub fn run(ctx: &Ctx) -> Outcome {
                 let (total, _) = run_op(&map, &mut model, op, key, 0);
                 drop(map);
                 for at in 1..=total {
-                    if !ctx.time_left() {
-                        exhaustive = false;
-                        out.inconclusive.push("time budget ended before every injection point was tried".into());
-                        break 'outer;
-                    }
                     ledger().reset();
                     let mut rng = rng0.clone();
                     let (map, mut model) = build(mode, cap, universe, n_ops, &mut rng);
@@ -501,5 +506,74 @@ pub fn run(ctx: &Ctx) -> Outcome {
         }
     }
     out.exhaustive = Some(exhaustive);
+    // (panics injected while other threads use the map: part `concurrent`, a job of its own,
+    // because a hang there is a verdict and is detected by the supervisor)
     out
+}
+
+/// Free-run rounds in which some calls are compute_if_present / retain / retain_force whose
+/// callback panics (caught by the calling worker). Every such call enters the history as a read
+/// of what its callback was shown; at quiescence the inspector must find every lock free, the
+/// counter exact, the public API in agreement, the history linearizable and the drop ledger balanced.
+fn run_concurrent(ctx: &Ctx, out: &mut Outcome) {
+    use crate::freerun::*;
+    use flurry::verif as fvf;
+    let target = ctx.args.u64("rounds", ctx.q(60, 4000));
+    let mut round = ctx.args.u64("first-round", 0);
+    let target = target + round;
+    while round < target && ctx.time_left() {
+        let rs = splitmix(ctx.seed ^ splitmix(ctx.shard.wrapping_mul(0xC18) ^ round) ^ 0x18);
+        let mut rng = Rng::new(rs);
+        let mut cfg = super::c01::draw(&mut rng, ctx.thorough);
+        cfg.set_facade = false;
+        cfg.iter_threads = 0;
+        cfg.holder_threads = 0;
+        cfg.mix.panic_compute = 12;
+        cfg.mix.panic_retain = 2;
+        cfg.mix.get += 10;
+        cfg.mix.clear = 0;
+        if rng.chance(2, 3) {
+            // crowded bins: readers inside trees while callbacks panic
+            cfg.mode = *rng.pick(&CROWDED_MODES);
+            cfg.cap = 64;
+            cfg.nkeys = rng.range(9, 40);
+            cfg.prefill = cfg.nkeys.min(rng.range(8, 20));
+            cfg.focus_site = *rng.pick(&[0, fvf::WIN_TREE_READ_LOCKED, fvf::WIN_BEFORE_CLOSURE, fvf::WIN_TREE_ROOT_LOCKED]);
+        }
+        cfg.threads = cfg.threads.clamp(2, 8);
+        let r = run_round(&cfg, rs);
+        round += 1;
+        out.evaluations += 1;
+        out.add("concurrent_rounds_with_injected_panics", 1);
+        let mut problem = None;
+        if !r.panics.is_empty() {
+            problem = Some(format!("a call panicked with something other than the injected payload: {}", r.panics.join("; ")));
+        } else if !r.audit_failures.is_empty() {
+            problem = Some(format!("at quiescence: {}", r.audit_failures.join("; ")));
+        } else if !r.agreement_failures.is_empty() {
+            problem = Some(format!("at quiescence: {}", r.agreement_failures.join("; ")));
+        } else if !r.ledger.errors.is_empty() || r.ledger.live != 0 {
+            problem = Some(format!("drop ledger after teardown: errors {:?}, {} instances never dropped", r.ledger.errors.iter().take(3).collect::<Vec<_>>(), r.ledger.live));
+        } else {
+            let pre = r.prefill.clone();
+            let init = move |k: u64| -> Option<u64> { pre.get(&k).copied() };
+            let hr = crate::wgl::check_history(&r.history, &init, 1 << 21);
+            out.add("concurrent_key_histories_checked", hr.keys_checked);
+            if hr.contended_keys > 0 {
+                out.distinct.insert(r.signature);
+            }
+            if let Some((k, h)) = hr.violation {
+                let hs = h.iter().map(|e| format!("t{}[{}..{}]{:?}", e.thread, e.call, e.ret, e.op)).collect::<Vec<_>>().join(" | ");
+                problem = Some(format!("the calls on key {k} (a panicking callback is recorded as a read of what it was shown) have no sequential explanation: {hs}"));
+            }
+        }
+        if let Some(p) = problem {
+            out.violate(
+                "c18/concurrent",
+                format!("{p} [round {} of shard {} {}]", round - 1, ctx.shard, cfg.to_json()),
+                Json::obj().with("check", Json::s("c18")).with("engine", Json::s("freerun")).with("seed", Json::u(ctx.seed)).with("shard", Json::u(ctx.shard)).with("round", Json::u(round - 1)).with("config", cfg.to_json()),
+            );
+            break;
+        }
+    }
 }
